@@ -184,7 +184,7 @@ func c12ToInt(c *Ctx) {
 	chunk := "slice(p0, bin<+>(bin<*>(ind<-1>(0), 40), 200), bin<+>(bin<*>(ind<-1>(0), 40), 240))" // canonical form of t[i*40 : i*40+40] for i = 5..0
 	horner := "phi(0, bin<+>(bin<*>(cycle, 3), call<*>(load(iaddr(" + chunk + ", ind<-1>(bin<->(len(" + chunk + "), 1)))))))"
 	okOuter := len(edgesMatching(b, "bin<>=>(ind<-1>(5), 0)")) == 1
-	okInner := len(edgesMatching(b, "bin<>=>(ind<-1>(bin<->(len("+chunk+"), 1)), 0)")) == 1
+	okInner := countEdgesDeep(c, b, "bin<>=>(ind<-1>(bin<->(len("+chunk+"), 1)), 0)") == 1
 	plus1 := plainEdges(edgesMatching(b, "bin<==>(ind<-1>(5), 0)"))
 	for _, e := range ana.Exits(fn) {
 		if e.Panic {
@@ -397,12 +397,9 @@ func c12Worker(c *Ctx) {
 		}
 	}
 	fill := false
-	for _, ci := range ana.Calls(fn) {
-		if cal := ana.StaticRepoCallee(ci.Common()); cal != nil {
-			t := b.CallTermAt(ci)
-			if matches("call<*>(slice(load(iaddr(_, bin<+>(ind<+1>(-1), 1))), call<github.com/iotaledger/iota.go/encoding/b1t6.EncodedLen>(len(p1)), none), bin<+>(ind<+"+WS+">(p2), conv<uint64>(bin<+>(ind<+1>(-1), 1))))", t) {
-				fill = true
-			}
+	for _, t := range deepCallTerms(c, b) {
+		if matches("call<*>(slice(load(iaddr(_, bin<+>(ind<+1>(-1), 1))), call<github.com/iotaledger/iota.go/encoding/b1t6.EncodedLen>(len(p1)), none), bin<+>(ind<+"+WS+">(p2), conv<uint64>(bin<+>(ind<+1>(-1), 1))))", t) && calleeOf(t) != nil {
+			fill = true
 		}
 	}
 	r.Check(fill, "C12.return.lane-filling", c.P.Pos(fn.Pos()), "lane i of each batch carries nonce base+i at the digest offset")
